@@ -2684,14 +2684,14 @@ static EntryTableBArray bufr_csv_read_tableb
    fp = fopen ( filename, "rb" ) ;
    if (fp == NULL)
       {
-      sprintf( errmsg, _("Warning: can't open Table B file %s\n"), filename );
+      snprintf( errmsg, sizeof(errmsg), _("Warning: can't open Table B file %s\n"), filename );
       bufr_print_debug( errmsg );
       return NULL;
       }
 
    if (bufr_is_debug())
       {
-      sprintf( errmsg, _("Loading Table B : %s\n"), filename );
+      snprintf( errmsg, sizeof(errmsg), _("Loading Table B : %s\n"), filename );
       bufr_print_debug( errmsg );
       }
 
@@ -2723,7 +2723,7 @@ static EntryTableBArray bufr_csv_read_tableb
 	 if ((pos_FXY < 0)||(pos_ElementName < 0)||(pos_BUFR_Unit < 0)||(pos_BUFR_Scale < 0)||(pos_BUFR_ReferenceValue < 0)||(pos_BUFR_DataWidth_Bits < 0))
             {
             fclose( fp );
-            sprintf( errmsg, _("Error reading Table B file %s\n"), filename );
+            snprintf( errmsg, sizeof(errmsg), _("Error reading Table B file %s\n"), filename );
             bufr_print_debug( errmsg );
 	    free( csvcells );
             return NULL;
@@ -2734,14 +2734,14 @@ static EntryTableBArray bufr_csv_read_tableb
          }
       if (nbcell != csv_line_size) 
          {
-         sprintf( errmsg, _("Warning: nbcell=%d differ expected=%d, skipping line %d: %s\n"), nbcell, csv_line_size, lineno, ligne );
+         snprintf( errmsg, sizeof(errmsg), _("Warning: nbcell=%d differ expected=%d, skipping line %d: %s\n"), nbcell, csv_line_size, lineno, ligne );
          bufr_print_debug( errmsg );
          continue;
 	 }
       tok = csvcells[pos_FXY];
       if (tok == NULL) 
          {
-         sprintf( errmsg, _("Warning: no FXY at line %d: %s\n"), lineno, ligne );
+         snprintf( errmsg, sizeof(errmsg), _("Warning: no FXY at line %d: %s\n"), lineno, ligne );
          bufr_print_debug( errmsg );
 	 continue;
 	 }
@@ -2750,7 +2750,7 @@ static EntryTableBArray bufr_csv_read_tableb
          {
          if (isdebug)
             {
-            sprintf( errmsg, _("Skipped invalid descriptor at line %d: %s\n"), lineno, ligne );
+            snprintf( errmsg, sizeof(errmsg), _("Skipped invalid descriptor at line %d: %s\n"), lineno, ligne );
             bufr_print_debug( errmsg );
             }
          continue;
@@ -2761,7 +2761,7 @@ static EntryTableBArray bufr_csv_read_tableb
       tok = csvcells[pos_ElementName];
       if (tok == NULL) 
          {
-         sprintf( errmsg, _("Warning: no ElementName at line %d: %s\n"), lineno, ligne );
+         snprintf( errmsg, sizeof(errmsg), _("Warning: no ElementName at line %d: %s\n"), lineno, ligne );
          bufr_print_debug( errmsg );
 	 continue;
 	 }
@@ -2771,7 +2771,7 @@ static EntryTableBArray bufr_csv_read_tableb
       tok = csvcells[pos_BUFR_Unit];
       if (tok == NULL) 
          {
-         sprintf( errmsg, _("Warning: no Unit at line %d: %s\n"), lineno, ligne );
+         snprintf( errmsg, sizeof(errmsg), _("Warning: no Unit at line %d: %s\n"), lineno, ligne );
          bufr_print_debug( errmsg );
 	 continue;
 	 }
@@ -2780,7 +2780,7 @@ static EntryTableBArray bufr_csv_read_tableb
       tok = csvcells[pos_BUFR_Scale];
       if (tok == NULL) 
          {
-         sprintf( errmsg, _("Warning: no Scale at line %d: %s\n"), lineno, ligne );
+         snprintf( errmsg, sizeof(errmsg), _("Warning: no Scale at line %d: %s\n"), lineno, ligne );
          bufr_print_debug( errmsg );
 	 continue;
 	 }
@@ -2789,7 +2789,7 @@ static EntryTableBArray bufr_csv_read_tableb
       tok = csvcells[pos_BUFR_ReferenceValue];
       if (tok == NULL) 
          {
-         sprintf( errmsg, _("Warning: no ReferenceValue at line %d: %s\n"), lineno, ligne );
+         snprintf( errmsg, sizeof(errmsg), _("Warning: no ReferenceValue at line %d: %s\n"), lineno, ligne );
          bufr_print_debug( errmsg );
 	 continue;
 	 }
@@ -2798,7 +2798,7 @@ static EntryTableBArray bufr_csv_read_tableb
       tok = csvcells[pos_BUFR_DataWidth_Bits];
       if (tok == NULL) 
          {
-         sprintf( errmsg, _("Warning: no DataWidth_Bits at line %d: %s\n"), lineno, ligne );
+         snprintf( errmsg, sizeof(errmsg), _("Warning: no DataWidth_Bits at line %d: %s\n"), lineno, ligne );
          bufr_print_debug( errmsg );
 	 continue;
 	 }
@@ -2807,7 +2807,7 @@ static EntryTableBArray bufr_csv_read_tableb
       etb->encoding.type        = bufr_unit_to_datatype( etb->unit );
       if (etb->encoding.type == TYPE_UNDEFINED)
          {
-         sprintf( errmsg, _("Warning: error while loading Table B file: %s\n"), 
+         snprintf( errmsg, sizeof(errmsg), _("Warning: error while loading Table B file: %s\n"), 
             filename );
          bufr_print_debug( errmsg );
          sprintf( errmsg, _("Error reading descriptor: %d unit=\"%s\"\n"), 
@@ -2901,7 +2901,7 @@ static EntryTableDArray bufr_csv_read_tabled (EntryTableDArray addr_tabled, cons
 	 if ((pos_FXY1 < 0)||(pos_Title_en < 0)||(pos_FXY2 < 0))
             {
             fclose( fp );
-            sprintf( errmsg, _("Error reading Table D file %s\n"), filename );
+            snprintf( errmsg, sizeof(errmsg), _("Error reading Table D file %s\n"), filename );
             bufr_print_debug( errmsg );
 	    free( csvcells );
             return NULL;
@@ -2912,14 +2912,14 @@ static EntryTableDArray bufr_csv_read_tabled (EntryTableDArray addr_tabled, cons
          }
       if (nbcell != csv_line_size) 
          {
-         sprintf( errmsg, _("Warning: nbcell=%d differ expected=%d, skipping line %d: %s\n"), nbcell, csv_line_size, lineno, ligne );
+         snprintf( errmsg, sizeof(errmsg), _("Warning: nbcell=%d differ expected=%d, skipping line %d: %s\n"), nbcell, csv_line_size, lineno, ligne );
          bufr_print_debug( errmsg );
          continue;
 	 }
       tok = csvcells[pos_FXY1];
       if (tok == NULL) 
          {
-         sprintf( errmsg, _("Warning: no FXY1 at line %d: %s\n"), lineno, ligne );
+         snprintf( errmsg, sizeof(errmsg), _("Warning: no FXY1 at line %d: %s\n"), lineno, ligne );
          bufr_print_debug( errmsg );
 	 continue;
 	 }
@@ -2928,7 +2928,7 @@ static EntryTableDArray bufr_csv_read_tabled (EntryTableDArray addr_tabled, cons
       tok = csvcells[pos_Title_en];
       if (tok == NULL) 
          {
-         sprintf( errmsg, _("Warning: no Title at line %d: %s\n"), lineno, ligne );
+         snprintf( errmsg, sizeof(errmsg), _("Warning: no Title at line %d: %s\n"), lineno, ligne );
          bufr_print_debug( errmsg );
 	 continue;
 	 }
@@ -2944,7 +2944,7 @@ static EntryTableDArray bufr_csv_read_tabled (EntryTableDArray addr_tabled, cons
       tok = csvcells[pos_FXY2];
       if (tok == NULL) 
          {
-         sprintf( errmsg, _("Warning: no FXY2 at line %d: %s\n"), lineno, ligne );
+         snprintf( errmsg, sizeof(errmsg), _("Warning: no FXY2 at line %d: %s\n"), lineno, ligne );
          bufr_print_debug( errmsg );
 	 continue;
 	 }
